@@ -3362,6 +3362,15 @@ class _TableLookup(ast.NodeTransformer):
                 not isinstance(e.slice, ast.Slice) and \
                 _dup_safe_arg(e.slice):
             return self.tables[-1][e.value.attr], e.slice
+        # the table written in place (a class constant already written back)
+        if isinstance(e, ast.Subscript) and isinstance(e.value, ast.Dict) \
+                and 1 <= len(e.value.keys) <= 6 and all(
+                    isinstance(k, ast.Constant) and
+                    isinstance(v, ast.Constant)
+                    for k, v in zip(e.value.keys, e.value.values)) and \
+                not isinstance(e.slice, ast.Slice) and \
+                _dup_safe_arg(e.slice):
+            return e.value, e.slice
         return None
 
     def visit_Assign(self, node):
